@@ -6745,3 +6745,144 @@ def bn2(m, run, rule='BN2.binomial-coefficient-on-integers'):
                 raise AnalysisError('%s: interpreter met an unsupported construct: %s' % (fi.key, ex))
     run.ob(rule, '%s :: %d (k, i) pairs' % (fi.key, cnt), not bad, 'k! / (i! (k - i)!) for i <= k, 0 above' if not bad else '%s: %s   [%d of %d]' % (bad[0][0], bad[0][1], len(bad), cnt),
            'geomdl/linalg.py:%d in %s' % (fi.node.lineno, fi.key))
+
+
+# ====================================================================================== C13: surfaces extracted from a volume
+def ex4(m, run, rule='EX4.surfaces-extracted-from-a-volume'):
+    """EX4: construct.extract_surfaces / extract_isosurface interpreted on a volume stand-in with index-labelled control points (sizes 2 x 3 x
+    4, degrees 1, 2, 3, one knot vector of order tokens per direction; B-spline and rational), the surfaces built by the real classes'
+    constructors and setters: the 'uv' family has one surface per w holding the points (u, v, w) at [u][v] with the u / v degrees and knot
+    vectors, 'uw' one per v with (u, v, w) at [u][w] and the u / w data, 'vw' one per u with (u, v, w) at [v][w] and the v / w data; the
+    iso-surface tuple is the first and last member of each family"""
+    sizes, degs = (2, 3, 4), (1, 2, 3)
+    su, sv, sw = sizes
+    fams = {'uv': (0, 1, 2), 'uw': (0, 2, 1), 'vw': (1, 2, 0)}
+    for rational in (False, True):
+        hd = 4 if rational else 3
+        kvs = [[Ord(100 * d + r) for r in [0] * (degs[d] + 1) + list(range(1, sizes[d] - degs[d])) + [sizes[d] - degs[d]] * (degs[d] + 1)] for d in range(3)]
+        cp = [None] * (su * sv * sw)
+        for u in range(su):
+            for v in range(sv):
+                for w in range(sw):
+                    cp[v + sv * (u + su * w)] = [Tok('DEF', dep=frozenset([(u, v, w, c)])) for c in range(hd)]
+        data = dict(rational=rational, degree=tuple(degs), knotvector=tuple(kvs), size=tuple(sizes), control_points=tuple(cp), dimension=3, pdimension=3, type='spline')
+        vol = Bag(('NURBS' if rational else 'BSpline', 'Volume'), data=data, _pdim=3, __len__=1, _rational=rational)
+        key = 'construct.extract_surfaces :: %s volume' % ('rational' if rational else 'B-spline')
+        ab = dict(STD_ABSTRACTED)
+        ab[('knotvector', 'normalize')] = Py(lambda sk, node, kv, *a, **k: [Ord(x.rank) for x in kv], 'knotvector.normalize')
+        sk = SK(m, ab)
+        sk.construct = True
+        why = None
+        try:
+            out = sk.call(m.func('construct.extract_surfaces'), [vol], {})
+            if not isinstance(out, dict) or set(out) != set(fams):
+                why = 'the result is not a dictionary with the families uv, uw, vw'
+            for fam, (a, b, c) in sorted(fams.items()):
+                if why:
+                    break
+                lst = out[fam]
+                if not isinstance(lst, list) or len(lst) != sizes[c]:
+                    why = "family '%s' has %r surfaces; one per %s index (%d) is expected" % (fam, len(lst) if isinstance(lst, list) else lst, 'uvw'[c], sizes[c])
+                    break
+                for k, s_ in enumerate(lst):
+                    at = s_._a if isinstance(s_, Bag) else {}
+                    if not isinstance(s_, Bag) or not isinstance(s_._cls, tuple) or s_._cls[1] != 'Surface' or (s_._cls[0] == 'NURBS') != rational:
+                        why = "family '%s' member %d is not a %s surface" % (fam, k, 'rational' if rational else 'B-spline')
+                    elif list(at.get('_degree', [])) != [degs[a], degs[b]] or list(at.get('_control_points_size', [])) != [sizes[a], sizes[b]]:
+                        why = "family '%s' member %d has degrees %s and sizes %s; the %s and %s data of the volume are %s and %s" % (
+                            fam, k, list(at.get('_degree', [])), list(at.get('_control_points_size', [])), 'uvw'[a], 'uvw'[b], [degs[a], degs[b]], [sizes[a], sizes[b]])
+                    elif [[getattr(x, 'rank', None) for x in kv] for kv in at.get('_knot_vector', [])] != [[x.rank for x in kvs[a]], [x.rank for x in kvs[b]]]:
+                        why = "family '%s' member %d does not get the %s and %s knot vectors of the volume, in this order" % (fam, k, 'uvw'[a], 'uvw'[b])
+                    else:
+                        st = at.get('_control_points', [])
+                        for i in range(sizes[a]):
+                            for j in range(sizes[b]):
+                                idx = [None, None, None]
+                                idx[a], idx[b], idx[c] = i, j, k
+                                pt = st[j + sizes[b] * i] if len(st) == sizes[a] * sizes[b] else None
+                                f = footprint(pt) if isinstance(pt, (list, tuple)) else None
+                                if not f or {x[:3] for x in f} != {tuple(idx)}:
+                                    why = "family '%s' member %d: the control point at [%d][%d] is %s; it is the volume point (u, v, w) = %s" % (
+                                        fam, k, i, j, sorted({x[:3] for x in f}) if f else pt, tuple(idx))
+                                    break
+                            if why:
+                                break
+                    if why:
+                        break
+            if why is None:
+                iso = sk.call(m.func('construct.extract_isosurface'), [vol], {})
+                if not isinstance(iso, tuple) or len(iso) != 6:
+                    why = 'extract_isosurface does not return six surfaces'
+                else:
+                    def ident(s_, fam):
+                        a, b, c = fams[fam]
+                        f = footprint(s_._a['_control_points'][0])
+                        return next(iter(f))[c] if f else None
+                    got = [ident(iso[0], 'uv'), ident(iso[1], 'uv'), ident(iso[2], 'uw'), ident(iso[3], 'uw'), ident(iso[4], 'vw'), ident(iso[5], 'vw')]
+                    if got != [0, sw - 1, 0, sv - 1, 0, su - 1]:
+                        why = 'the iso-surfaces are the members %s of uv, uw, vw; the boundary ones are the first and the last of each family' % got
+        except Violation as v:
+            why = '%s %s' % (v.msg, v.where())
+        except Unsupported as ex:
+            raise AnalysisError('%s: interpreter met an unsupported construct: %s' % (key, ex))
+        fi = m.func('construct.extract_surfaces')
+        run.ob(rule, key, why is None, 'three families with the right points, degrees and knot vectors; the iso-surface tuple is their first and last members' if why is None else why,
+               'geomdl/construct.py:%d in %s' % (fi.node.lineno, fi.key))
+
+
+# ====================================================================================== C20: the voxel grid tiles the bounding box
+def vx2(m, run, rule='VX2.voxel-grid-tiles-the-box'):
+    """VX2: _voxelize.generate_voxel_grid interpreted with exact rational arithmetic (linalg.frange interpreted too) on boxes with three
+    different extents and three different sizes, cuboids and cubes: the voxels are listed with u outermost and w innermost, the first
+    origin is the minimum corner of the box, every voxel is [origin, origin + steps] with one step vector for the whole grid, consecutive
+    origins along an axis are exactly one step of that axis apart (no gaps, no overlaps), and the voxels reach the maximum corner"""
+    from fractions import Fraction as F
+    fi = m.func('_voxelize.generate_voxel_grid')
+    bad, cnt = [], 0
+    for bbox, sz in ((((0, 0, 0), (2, 3, 6)), (3, 4, 4)), (((-1, 2, 0), (1, 3, 4)), (5, 2, 3)), (((0, 0, 0), (1, 1, 1)), (2, 3, 5))):
+        for cubes in (False, True):
+            cnt += 1
+            sk = SK(m, {})
+            sk.exact = True
+            why = None
+            try:
+                out = sk.call(fi, [[list(map(F, bbox[0])), list(map(F, bbox[1]))], list(sz)], {'use_cubes': cubes})
+                out = list(out) if not isinstance(out, list) else out
+                vox = [[[F(c) for c in corner] for corner in v_] for v_ in out]
+                if not vox or any(len(v_) != 2 or len(v_[0]) != 3 or len(v_[1]) != 3 for v_ in vox):
+                    why = 'the result is not a list of [minimum corner, maximum corner] pairs'
+                else:
+                    steps = [vox[0][1][a] - vox[0][0][a] for a in range(3)]
+                    want_steps = [F(bbox[1][a] - bbox[0][a], sz[a] - 1) for a in range(3)]
+                    if cubes:
+                        want_steps = [min(want_steps)] * 3
+                    axes = [sorted({v_[0][a] for v_ in vox}) for a in range(3)]
+                    if steps != want_steps:
+                        why = 'the voxels have the edge lengths %s, expected %s' % ([str(x) for x in steps], [str(x) for x in want_steps])
+                    elif any(v_[1][a] - v_[0][a] != steps[a] for v_ in vox for a in range(3)):
+                        why = 'the voxels do not all have the same edge lengths'
+                    elif [axes[a][0] for a in range(3)] != [F(x) for x in bbox[0]]:
+                        why = 'the first voxel origins are %s, the minimum corner of the box is %s' % ([str(axes[a][0]) for a in range(3)], list(bbox[0]))
+                    else:
+                        for a in range(3):
+                            gaps = {y - x for x, y in zip(axes[a], axes[a][1:])}
+                            # (frange closes the range with the end value itself: the last origin may be closer than one step)
+                            inner = {y - x for x, y in zip(axes[a][:-1], axes[a][1:-1])} if len(axes[a]) > 2 else set()
+                            if inner - {steps[a]} or any(g > steps[a] for g in gaps):
+                                why = 'along %s the voxel origins are %s apart but the voxels are %s long: the grid has gaps or overlaps' % ('uvw'[a], sorted(str(g) for g in gaps), steps[a])
+                                break
+                            if axes[a][-1] + steps[a] < F(bbox[1][a]):
+                                why = 'along %s the voxels end at %s, the box at %s' % ('uvw'[a], axes[a][-1] + steps[a], bbox[1][a])
+                                break
+                        if why is None:
+                            want_order = [[u, v, w] for u in axes[0] for v in axes[1] for w in axes[2]]
+                            if [v_[0] for v_ in vox] != want_order:
+                                why = 'the voxels are not listed with u outermost and w innermost (every combination of the per-axis origins once)'
+            except Violation as v:
+                why = '%s %s' % (v.msg, v.where())
+            except Unsupported as ex:
+                raise AnalysisError('%s: interpreter met an unsupported construct: %s' % (fi.key, ex))
+            if why:
+                bad.append(('box %s, sizes %s%s' % (bbox, sz, ', cubes' if cubes else ''), why))
+    run.ob(rule, '%s :: %d (box, sizes, cubes) cases' % (fi.key, cnt), not bad, 'one step vector sizes the voxels and spaces their origins; the grid starts at the minimum corner and reaches the maximum corner; u-major order' if not bad else
+           '%s: %s   [%d of %d]' % (bad[0][0], bad[0][1], len(bad), cnt), 'geomdl/_voxelize.py:%d in %s' % (fi.node.lineno, fi.key))
